@@ -12,8 +12,16 @@ P = {
    'Trusts oracle::semver / oracle::pep440. Only successful runs are judged (failures belong to C13). Known finding F16 is absorbed by exact signature.',
    "§6 C01"),
  "C02": (False, "", "", "", "§6 C02"),
- "C03": (False, "", "", "", "§6 C03"),
- "C04": (False, "", "", "", "§6 C04"),
+ "C03": (True,
+   "proptest generation of flow states judged by independent SemVer / PEP 440 comparators (bounds X.Y.Z < V < X.Y.(Z+1), exact value when clean), metamorphic distance-monotonicity pairs, pre-release-tag fixed point; real-git first-parent chains in C02's repository machinery",
+   "Final tags x branches x distances x dirty flags x rule sets x post modes x hash lengths x standard presets x both formats are run through `zerv flow`; the output is ordered against the tag and the next patch release by comparators that share no code with zerv; pairs of distances in commit mode must give strictly increasing versions; a clean checkout at a pre-release tag of flow's own shapes must return the tag.",
+   'standard-base[-context] print only the bumped core by documented design (V == X.Y.(Z+1) asserted there). PEP 440 order = public version order. Tag numbers <= u32::MAX-2.',
+   "§6 C03"),
+ "C04": (True,
+   'model-based testing: proptest-generated (tag, branch, distance, dirty, flags, rule set) against a reference model of the flow rules (differential on the emitted vars), exhaustive rule-pattern x branch-shape grid, metamorphic hash law (same value as hash_int in an unrelated template; independent of tag/distance; digit-count contract), wall-clock bracket for dev',
+   'Every component flow derives (patch, label, number, post, dev) is compared with a model written from the statement for random states on sources none and stdin, for a 14 x 60 x 2 x 3 grid of rule patterns and branch shapes (prefix+non-slash suffixes, numeric segments at each depth, leading zeros, > u32 digits, Unicode), and for all hash lengths 1..10 on random branches; invalid rule sets and lengths must be rejected.',
+   'Trusts harness/src/oracle/flow.rs. Known finding F13 (length 10 overflows u32) absorbed by exact signature. A name that is exactly `prefix/` is not judged.',
+   "§6 C04"),
  "C05": (True,
    'model-based testing: proptest-generated flag sets against a reference model of the eleven precedence levels (differential, field-by-field on the emitted Zerv object), metamorphic flag-order permutation, plus exhaustive enumeration of all 2^11 bump subsets on three start versions',
    'Start versions (canonical SemVer tags, PEP 440 tags in any spelling, stdin objects with arbitrary valid schemas and u64 vars) x context flags x random subsets of by-name overrides/bumps with boundary u32 amounts x index-addressed operations in the three index spellings (in/out of range, numeric and not) are run through `version --output-format zerv` and compared with the reference model, including expected rejections and overflow; a permuted argv must give the identical output.',
